@@ -209,6 +209,27 @@ def classify_diff(got, exp):
 # C02
 
 
+def _holds_without_offset_steps(seed_info, t):
+  """witness class of the known finding `animation-step-boundary`: the same document without the animation steps of elements that have a
+  non-zero begin shows no change between its significant times at t"""
+  doc = gen_doc(seed_info)
+  n = 0
+  for e in docgen.all_elements(doc):
+    if not isinstance(e, (m.Text,)) and not isinstance(e, m.Region) and e.get_begin() not in (None, 0):
+      for st in list(e.iter_animation_steps()):
+        e.remove_animation_step(st)
+        n += 1
+  if n == 0:
+    return False
+  try:
+    offs = [s for s in ISD.significant_times(doc) if s <= t]
+    if not offs:
+      return False
+    return fp_isd(ISD.from_model(doc, t), True) == fp_isd(ISD.from_model(doc, offs[-1]), True)
+  except Exception:  # pylint: disable=broad-except
+    return False
+
+
 def check_c02(rec, doc, seed_info):
   desc = {"doc": docgen.describe(doc), "gen": seed_info}
   ra = {"prop": "C02", "gen": seed_info}
@@ -250,8 +271,11 @@ def check_c02(rec, doc, seed_info):
     ref = snap(prev[-1])
     if cur != ref:
       # which kind of instant is missing: an animation step boundary or an element boundary
+      # (the instant at which the snapshot actually changes first, not every candidate instant in between: the candidates are a
+      # superset, e.g. ends of children that are clipped by their parent)
       missed = [c for c in sorted(kinds) if prev[-1] < c <= t and c not in offs]
-      only_anim = bool(missed) and all(kinds[c] == {"animation"} for c in missed)
+      first = next((c for c in missed if snap(c) != ref), None)
+      only_anim = first is not None and (kinds[first] == {"animation"} or _holds_without_offset_steps(seed_info, t))
       rec.fail("change-between-significant-times" + (":animation-step-boundary" if only_anim else ""),
                "snapshot(t) == snapshot(greatest significant time <= t)",
                f"snapshot at t={t} differs from the one at the significant time {prev[-1]} (significant times {offs}); {docgen.describe(doc, 700)}", desc,
